@@ -1,6 +1,7 @@
 # driver/translate_src.py -- coq/gen/Src<Module>.v: the loop code of the crate translated from the CURRENT source on every
-# check run (driver/rust2coq.py + driver/r2c_table.py).  Proofs/SrcEq<Module>.v proves every regenerated definition equal
-# to the hand-written model function, so the theorems about the models are re-checked against what the code says now.
+# check run (driver/rust2coq.py + driver/r2c_table.py); hooked into translate.regenerate_all() through fragments().
+# Proofs/SrcEq<Module>.v proves every regenerated definition equal to the hand-written model function, so the theorems
+# about the models are re-checked against what the code says now.
 import os, sys
 import translate
 from translate import TieBroken, write_if_changed, _src
@@ -100,19 +101,30 @@ def render_all(only=None):
         for k, v in errors.items(): broken["%s.%s" % (mod, k)] = v
     return out, summary, broken
 
-_regen_prev = translate.regenerate
+def _fragment(mod):
+    """zero-argument renderer of gen/Src<mod>.v for translate.regenerate_all(): raises TieBroken (naming every function the
+    translator refused) instead of returning a file with missing definitions"""
+    def render():
+        text, sigs, errors = render_module(mod, r2c_table.MODULES[mod], {})
+        if errors:
+            raise TieBroken("; ".join("s_%s: %s" % kv for kv in sorted(errors.items())))
+        return text
+    return render
+
+def fragments():
+    """the hook of translate.regenerate_all(): [(path under coq/, function returning the text of the file)]"""
+    return [("gen/SrcPrelude.v", lambda: PRELUDE)] + [("gen/Src%s.v" % mod, _fragment(mod)) for mod in r2c_table.MODULES]
+
 def regenerate():
-    changed, d = _regen_prev()
-    files, summary, broken = render_all()
-    for name, text in files.items():
-        if write_if_changed(os.path.join(COQDIR, "gen", name + ".v"), text):
-            changed.append("gen/%s.v" % name)
-    d["src_functions"] = summary
-    d["src_tie_broken"] = broken          # function -> message; the src_<function> lemma of that module cannot compile
-    if broken and os.environ.get("R2C_STRICT") == "1":
-        raise TieBroken("; ".join("%s: %s" % kv for kv in sorted(broken.items())))
-    return changed, d
-translate.regenerate = regenerate          # chained the same way translate.py chains its own wrappers
+    """stand-alone regeneration of the gen/Src*.v files only (development; the check runs go through translate.regenerate_all)"""
+    changed, broken = [], {}
+    for rel, fn in fragments():
+        try:
+            text = fn()
+        except TieBroken as e:
+            broken[rel] = str(e); continue
+        if write_if_changed(os.path.join(COQDIR, rel), text): changed.append(rel)
+    return changed, broken
 
 def src_tie_checks(modules):
     """for a property module's extra_checks(): build Proofs/SrcEq<M>.vo for every M in `modules` (after regenerate()) and
@@ -135,6 +147,8 @@ def src_tie_checks(modules):
     return out, cov
 
 if __name__ == "__main__":
+    # development: `translate_src.py [Module ..]` writes the files even when some function is refused (the definition is
+    # then omitted and a comment names the reason)
     files, summary, broken = render_all(sys.argv[1:] or None)
     for name, text in files.items():
         p = os.path.join(COQDIR, "gen", name + ".v")
